@@ -197,4 +197,217 @@ theorem encode_inv (par : List Bytes → Nat → Bytes) (ho : Nat) (e : Enc) (bo
     · simp only [bump_vnext, List.length_append, List.length_cons, List.length_nil, Nat.zero_add]
       exact mod_succ_of_lt _ _ _ h.pos (by simp only [Enc.shardSize, bump_d, bump_p]; omega)
 
+/-! ### parity packets -/
+
+theorem mod_add_of_lt (v n l k : Nat) (h : v % n = l) (hl : l + k < n) : (v + k) % n = l + k := by
+  rw [Nat.add_mod, h, Nat.mod_eq_of_lt (show k < n by omega), Nat.mod_eq_of_lt hl]
+
+/-- every packet `sealParities` produces: the k-th one carries the id counter after k steps -/
+theorem mem_sealParities (bs : List Bytes) : ∀ (e : Enc) (q : Pkt), q ∈ sealParities e bs →
+    ∃ k b, k < bs.length ∧ q.kind = .parity ∧ q.vid = e.vnext + k ∧ q.seqid = (bumpN e k).next ∧
+      q.rest = fecHeader (BitVec.ofNat 32 q.seqid) typeParity ++ b ∧ bs[k]? = some b := by
+  induction bs with
+  | nil => intro e q h; simp [sealParities] at h
+  | cons b bs ih =>
+    intro e q h
+    simp only [sealParities, List.mem_cons] at h
+    rcases h with h | h
+    · exact ⟨0, b, by simp, by rw [h], by rw [h]; rfl, by rw [h]; rfl, by rw [h], by simp⟩
+    · obtain ⟨k, b', hk, h1, h2, h3, h4, h5⟩ := ih e.bump q h
+      refine ⟨k + 1, b', by simp only [List.length_cons]; omega, h1, ?_, ?_, h4, by simpa using h5⟩
+      · rw [h2, bump_vnext]; omega
+      · rw [h3]; rfl
+
+theorem sealParities_length (bs : List Bytes) : ∀ e : Enc, (sealParities e bs).length = bs.length := by
+  induction bs with
+  | nil => intro e; rfl
+  | cons b bs ih => intro e; simp only [sealParities, List.length_cons, ih]
+
+theorem fit_length (n : Nat) (b : Bytes) : (fit n b).length = n := by
+  simp only [fit, List.length_take, List.length_append, List.length_replicate]; omega
+
+/-! ### the crypt stage keeps the packets and draws once per packet -/
+
+theorem cryptAll_pkts {γ : Type} (P : Prims γ) (c : Cfg) : ∀ (pkts : List Pkt) (g : γ),
+    (cryptAll P c g pkts).emits.map (·.pkt) = pkts := by
+  intro pkts
+  induction pkts with
+  | nil => intro g; rfl
+  | cons x xs ih =>
+    intro g
+    simp only [cryptAll, List.map_cons, ih]
+    congr 1
+    simp only [crypt]; split <;> rfl
+
+theorem cryptAll_length {γ : Type} (P : Prims γ) (c : Cfg) (pkts : List Pkt) (g : γ) :
+    (cryptAll P c g pkts).emits.length = pkts.length := by
+  have := congrArg List.length (cryptAll_pkts P c pkts g)
+  simpa using this
+
+/-- the FEC stage alone over a request list (no cipher, no entropy) -/
+def fecAll {γ : Type} (P : Prims γ) (c : Cfg) : Option Enc → List Req → List Pkt
+  | _, [] => []
+  | enc, r :: rs => (fecStage P c enc r).2 ++ fecAll P c (fecStage P c enc r).1 rs
+
+def fecEnd {γ : Type} (P : Prims γ) (c : Cfg) : Option Enc → List Req → Option Enc
+  | enc, [] => enc
+  | enc, r :: rs => fecEnd P c (fecStage P c enc r).1 rs
+
+theorem postProcess_pkts {γ : Type} (P : Prims γ) (c : Cfg) : ∀ (reqs : List Req) (st : PP γ),
+    (postProcess P c st reqs).emits.map (·.pkt) = fecAll P c st.enc reqs ∧
+      (postProcess P c st reqs).st.enc = fecEnd P c st.enc reqs := by
+  intro reqs
+  induction reqs with
+  | nil => intro st; exact ⟨rfl, rfl⟩
+  | cons r rs ih =>
+    intro st
+    have := ih (ppStep P c st r).st
+    simp only [postProcess, List.map_append, fecAll, fecEnd]
+    refine ⟨?_, ?_⟩
+    · rw [this.1]; simp only [ppStep, cryptAll_pkts]
+    · rw [this.2]; simp only [ppStep]
+
+/-- the first `n` outputs of the entropy source and its state afterwards -/
+def drawsFrom {γ : Type} (P : Prims γ) : γ → Nat → List Bytes
+  | _, 0 => []
+  | g, n + 1 => (P.draw g).out :: drawsFrom P (P.draw g).g n
+
+def genAfter {γ : Type} (P : Prims γ) : γ → Nat → γ
+  | g, 0 => g
+  | g, n + 1 => genAfter P (P.draw g).g n
+
+theorem drawsFrom_add {γ : Type} (P : Prims γ) : ∀ (a b : Nat) (g : γ),
+    drawsFrom P g (a + b) = drawsFrom P g a ++ drawsFrom P (genAfter P g a) b := by
+  intro a
+  induction a with
+  | zero => intro b g; simp [drawsFrom, genAfter]
+  | succ a ih => intro b g; rw [Nat.succ_add]; simp only [drawsFrom, genAfter, ih, List.cons_append]
+
+theorem genAfter_add {γ : Type} (P : Prims γ) : ∀ (a b : Nat) (g : γ),
+    genAfter P g (a + b) = genAfter P (genAfter P g a) b := by
+  intro a
+  induction a with
+  | zero => intro b g; simp [genAfter]
+  | succ a ih => intro b g; rw [Nat.succ_add]; simp only [genAfter, ih]
+
+theorem cryptAll_draws {γ : Type} (P : Prims γ) (c : Cfg) (hc : c.cipher ≠ .none) : ∀ (pkts : List Pkt) (g : γ),
+    (cryptAll P c g pkts).emits.map (·.nonce) = (drawsFrom P g pkts.length).map (·.take c.nonceLen) ∧
+      (cryptAll P c g pkts).g = genAfter P g pkts.length := by
+  intro pkts
+  induction pkts with
+  | nil => intro g; exact ⟨rfl, rfl⟩
+  | cons x xs ih =>
+    intro g
+    cases hci : c.cipher with
+    | none => exact absurd hci hc
+    | aead n o =>
+      have := ih (P.draw g).g
+      simp only [cryptAll, crypt, hci, List.map_cons, List.length_cons, drawsFrom, genAfter, this.1, this.2,
+        Cfg.nonceLen, and_self]
+    | block =>
+      have := ih (P.draw g).g
+      simp only [cryptAll, crypt, hci, List.map_cons, List.length_cons, drawsFrom, genAfter, this.1, this.2,
+        Cfg.nonceLen, and_self]
+
+theorem postProcess_draws {γ : Type} (P : Prims γ) (c : Cfg) (hc : c.cipher ≠ .none) : ∀ (reqs : List Req) (st : PP γ),
+    (postProcess P c st reqs).emits.map (·.nonce) =
+        (drawsFrom P st.gen (postProcess P c st reqs).emits.length).map (·.take c.nonceLen) ∧
+      (postProcess P c st reqs).st.gen = genAfter P st.gen (postProcess P c st reqs).emits.length := by
+  intro reqs
+  induction reqs with
+  | nil => intro st; exact ⟨rfl, rfl⟩
+  | cons r rs ih =>
+    intro st
+    have h2 := ih (ppStep P c st r).st
+    have h1 := cryptAll_draws P c hc (fecStage P c st.enc r).2 st.gen
+    have hl := cryptAll_length P c (fecStage P c st.enc r).2 st.gen
+    simp only [postProcess, List.map_append, List.length_append]
+    have e1 : (ppStep P c st r).emits = (cryptAll P c st.gen (fecStage P c st.enc r).2).emits := rfl
+    have e2 : (ppStep P c st r).st.gen = (cryptAll P c st.gen (fecStage P c st.enc r).2).g := rfl
+    rw [drawsFrom_add, genAfter_add, List.map_append, e1, hl, h1.1]
+    rw [e2, h1.2] at h2
+    exact ⟨by rw [h2.1], h2.2⟩
+
+/-! ### lengths -/
+
+/-- what the theorems about sizes need to know about the external primitives -/
+structure LenLaws {γ : Type} (P : Prims γ) (c : Cfg) : Prop where
+  encB  : ∀ x, (P.encB x).length = x.length                      -- block ciphers encrypt in place
+  aseal : ∀ n x, (P.aseal n x).length = x.length + c.overhead     -- Seal appends exactly Overhead() bytes
+  draw  : ∀ g, 16 ≤ (P.draw g).out.length                        -- one Read yields a 16-byte block
+  nonce : c.nonceLen ≤ 16
+
+theorem fecHeader_length (id : BitVec 32) (t : Nat) : (fecHeader id t).length = fecHeaderSize := rfl
+theorem sizeField_length (n : Nat) : (sizeField n).length = 2 := rfl
+
+theorem crypt_wire_length {γ : Type} (P : Prims γ) (c : Cfg) (L : LenLaws P c) (g : γ) (pkt : Pkt) :
+    (crypt P c g pkt).emit.wire.length = c.cryptBase + pkt.rest.length + c.overhead := by
+  have hd := L.draw g
+  have hn := L.nonce
+  cases hc : c.cipher with
+  | none => simp only [crypt, hc, Cfg.cryptBase, Cfg.overhead]; omega
+  | aead n o =>
+    simp only [Cfg.nonceLen, hc] at hn
+    have ha := L.aseal ((P.draw g).out.take n) pkt.rest
+    simp only [Cfg.overhead, hc] at ha
+    simp only [crypt, hc, Cfg.cryptBase, Cfg.overhead, List.length_append, List.length_take, ha]; omega
+  | block =>
+    simp only [crypt, hc, Cfg.cryptBase, Cfg.overhead, L.encB, cryptFrame, List.length_append, List.length_take,
+      le32_length, cryptHeaderSize, nonceSize]; omega
+
+theorem newMax_ge (ho : Nat) (e : Enc) (body : Bytes) :
+    ho + fecHeaderSizePlus2 + body.length ≤ newMax ho e body ∧ e.maxSize ≤ newMax ho e body := by
+  simp only [newMax]; split <;> omega
+
+theorem newMax_le (ho : Nat) (e : Enc) (body : Bytes) (B : Nat) (h1 : e.maxSize ≤ B)
+    (h2 : ho + fecHeaderSizePlus2 + body.length ≤ B) : newMax ho e body ≤ B := by
+  simp only [newMax]; split <;> omega
+
+/-- data packet: FEC header + size field + body; parity packets: FEC header + a shard of
+`maxSize - payloadOffset` bytes, i.e. as long as the longest data packet of the group -/
+theorem encode_lengths (par : List Bytes → Nat → Bytes) (ho : Nat) (e : Enc) (body : Bytes) (now rto : Int) :
+    (encode par ho e body now rto).pkt.rest.length = fecHeaderSizePlus2 + body.length ∧
+    ∀ q ∈ (encode par ho e body now rto).parity, ho + q.rest.length = newMax ho e body := by
+  refine ⟨?_, ?_⟩
+  · rw [encode_pkt]; simp only [List.length_append, fecHeader_length, sizeField_length, fecHeaderSize, fecHeaderSizePlus2]
+  · intro q hq
+    by_cases hfull : e.cache.length + 1 = e.d
+    · by_cases hg : now - e.tsLatest < rto
+      · rw [(encode_full_ok par ho e body now rto hfull hg).2] at hq
+        obtain ⟨k, b, hk, _, _, _, h4, h5⟩ := mem_sealParities _ _ _ hq
+        have hb : b.length = newMax ho e body - (ho + fecHeaderSize) := by
+          rw [List.getElem?_map] at h5
+          cases hr : (List.range e.p)[k]? with
+          | none => rw [hr] at h5; cases h5
+          | some x => rw [hr] at h5; simp only [Option.map_some, Option.some.injEq] at h5; rw [← h5, fit_length]
+        have := (newMax_ge ho e body).1
+        rw [h4]; simp only [List.length_append, fecHeader_length, hb, fecHeaderSize, fecHeaderSizePlus2] at this ⊢
+        omega
+      · rw [(encode_full_skip par ho e body now rto hfull hg).2] at hq; cases hq
+    · rw [(encode_mid par ho e body now rto hfull).2] at hq; cases hq
+
+theorem encode_maxSize (par : List Bytes → Nat → Bytes) (ho : Nat) (e : Enc) (body : Bytes) (now rto : Int) :
+    (encode par ho e body now rto).enc.maxSize = 0 ∨ (encode par ho e body now rto).enc.maxSize = newMax ho e body := by
+  by_cases hfull : e.cache.length + 1 = e.d
+  · by_cases hg : now - e.tsLatest < rto
+    · rw [(encode_full_ok par ho e body now rto hfull hg).1]; exact Or.inl rfl
+    · rw [(encode_full_skip par ho e body now rto hfull hg).1]; exact Or.inl rfl
+  · rw [(encode_mid par ho e body now rto hfull).1]; exact Or.inr rfl
+
+theorem mem_cryptAll {γ : Type} (P : Prims γ) (c : Cfg) : ∀ (pkts : List Pkt) (g : γ),
+    ∀ em ∈ (cryptAll P c g pkts).emits, ∃ g' pkt, pkt ∈ pkts ∧ em = (crypt P c g' pkt).emit := by
+  intro pkts
+  induction pkts with
+  | nil => intro g em hem; cases hem
+  | cons x xs ih =>
+    intro g em hem
+    simp only [cryptAll, List.mem_cons] at hem
+    rcases hem with hem | hem
+    · exact ⟨g, x, by simp, hem⟩
+    · obtain ⟨g', pkt, h1, h2⟩ := ih _ em hem
+      exact ⟨g', pkt, by simp [h1], h2⟩
+
+theorem crypt_pkt {γ : Type} (P : Prims γ) (c : Cfg) (g : γ) (pkt : Pkt) : (crypt P c g pkt).emit.pkt = pkt := by
+  simp only [crypt]; split <;> rfl
+
 end KcpVerif.SessOut
